@@ -1066,6 +1066,8 @@ def float_observation(ctx, exe, rng, stats, runs):
                               + str(r["sanitizer"])[:300])
             else:
                 stats["float_aborts"] = stats.get("float_aborts", 0) + 1
+            if stats.get("float_aborts", 0) >= 3:
+                break
             continue
         p = parse_case_output(r["lines"])
         for m in METHODS:
@@ -1252,7 +1254,9 @@ def run(ctx):
         n += evaluate(ctx, exe, mexe, [c], stats)
         if c["N"] > 400:
             n += boundary_large(ctx, exe, c, stats)
-    float_observation(ctx, exe, rng, stats, 30 if quick else 400)
+    if not (stats.get("aborted_cases", 0) >= 3 and ctx.has_violation()):
+        # (a library that hangs or crashes again and again already has its verdict: do not spend 30 timeouts here)
+        float_observation(ctx, exe, rng, stats, 30 if quick else 400)
     for i in range(0, len(scatter), 2000):
         if ctx.has_violation():
             break
